@@ -15,6 +15,8 @@ TEXT = {
         text="Runtime monitoring: every emission route and every parser of the real library is executed on generated messages "
              "(all header fields varied jointly over boundary classes, every body-capacity relation) and compared with an "
              "independent from-the-spec codec anchored on the Glaze interop fixtures; the same workload is interpreted by Miri. "
+             "Raw capture peers record what Server/AsyncServer/WebSocketServer answer and what every request entry point of the "
+             "three clients, the fleets, forward_message and proxy_connection put on the wire; all must equal the spec frame. "
              "Held on the executions observed, not a proof.",
         note="Trusts the spec codec in harness/src/oracle.rs (anchored on interop/fixtures), rustc, Miri.",
         ref="DESIGN.md §4 C01"),
